@@ -122,6 +122,12 @@ a.stored = 1
 return tostring(a):sub(1, 6), pcall(function() return a() end), pcall(function() return -a end), a.missing, rawget(a, "stored"), #log, a == b, pcall(function() return a < b end), pcall(function() return a <= b end), pcall(function() return a .. "x" end), pcall(function() return a + 1 end), #a`, "table:|false|false|nil|1|0|false|false|false|false|false|0", nil},
 	{"C14", "backtracking-is-bounded-by-depth-not-by-work", `local s = ("a"):rep(90) local t = ("a"):rep(40) return s:find("^a-a-a-a-b"), t:find("^a*a*a*a*a*b"), (s .. "b"):find("^a-a-a-a-b"), select("#", s:find("^a-a-a-a-b"))`, "nil|nil|1|1", nil},
 	{"C01", "function-statements-behind-600-constants", `local parts = {"local cp = {"} for i = 1, 600 do parts[#parts + 1] = (i + 0.5) .. "," end parts[#parts + 1] = "} local obj = {n = 'obj'} function obj:name(x) return self == obj, x end function obj.plain(x) return x end local s = ('abc'):upper() local r1, r2 = obj:name(7) return r1, r2, obj.plain(8), s, obj.n, ('x'):rep(2), #cp" return loadstring(table.concat(parts))()`, "true|7|8|ABC|obj|xx|600", nil},
+	{"C12", "huge-call-stack-size-with-segmented-stack/524264", `local function f(n) if n == 0 then return 0 end return 1 + f(n - 1) end local ok, v = pcall(f, 100) local ok2, v2 = pcall(f, 1000) local co = coroutine.wrap(function() return f(200) end) return ok, v, ok2, v2, co()`, "true|100|true|1000|200", &lua.Options{CallStackSize: 524264, MinimizeStackMemory: true}},
+	{"C12", "huge-call-stack-size-with-segmented-stack/524280", `local function f(n) if n == 0 then return 0 end return 1 + f(n - 1) end local ok, v = pcall(f, 100) local ok2, v2 = pcall(f, 1000) local co = coroutine.wrap(function() return f(200) end) return ok, v, ok2, v2, co()`, "true|100|true|1000|200", &lua.Options{CallStackSize: 524280, MinimizeStackMemory: true}},
+	{"C12", "huge-call-stack-size-with-segmented-stack/524288", `local function f(n) if n == 0 then return 0 end return 1 + f(n - 1) end local ok, v = pcall(f, 100) local ok2, v2 = pcall(f, 1000) local co = coroutine.wrap(function() return f(200) end) return ok, v, ok2, v2, co()`, "true|100|true|1000|200", &lua.Options{CallStackSize: 524288, MinimizeStackMemory: true}},
+	{"C12", "huge-call-stack-size-with-segmented-stack/600000", `local function f(n) if n == 0 then return 0 end return 1 + f(n - 1) end local ok, v = pcall(f, 100) local ok2, v2 = pcall(f, 1000) local co = coroutine.wrap(function() return f(200) end) return ok, v, ok2, v2, co()`, "true|100|true|1000|200", &lua.Options{CallStackSize: 600000, MinimizeStackMemory: true}},
+	{"C12", "huge-call-stack-size-with-segmented-stack/2097152", `local function f(n) if n == 0 then return 0 end return 1 + f(n - 1) end local ok, v = pcall(f, 100) local ok2, v2 = pcall(f, 1000) local co = coroutine.wrap(function() return f(200) end) return ok, v, ok2, v2, co()`, "true|100|true|1000|200", &lua.Options{CallStackSize: 2097152, MinimizeStackMemory: true}},
+	{"C12", "huge-call-stack-size-with-fixed-stack", `local function f(n) if n == 0 then return 0 end return 1 + f(n - 1) end local ok, v = pcall(f, 100) local ok2, v2 = pcall(f, 1000) local co = coroutine.wrap(function() return f(200) end) return ok, v, ok2, v2, co()`, "true|100|true|1000|200", &lua.Options{CallStackSize: 524288}},
 	// eighth batch
 	{"C19", "read-format-must-be-a-number-or-a-string", `local f = io.open("$F") local a, b, c = pcall(f.read, f, true), pcall(f.read, f, nil), pcall(f.read, f, {}) local d = f:read(2, "*l") f:close() return a, b, c, d`, "false|false|false|01", nil},
 	{"C19", "io.lines-on-a-closed-default-input-raises-at-once", `io.input("$F") io.close(io.input()) local closed = pcall(io.lines) io.input("$F") local open = pcall(io.lines) return closed, open`, "false|true", nil},
